@@ -157,6 +157,10 @@ def cases(rng: random.Random, tier: str):
                     keep = [a]
                 elif mode == "some" and len(nodes) > 1:
                     keep = rng.sample(nodes[1:], min(len(nodes) - 1, rng.randint(1, 3)))
+                    # children stored in fields typed as a union of unrelated node classes / fixed tuples
+                    typed = [c for c, p, f, i in zoo.positions(a) if type(p) in (zoo.UnionKid, zoo.Fix2)]
+                    if typed and rng.random() < 0.7:
+                        keep += rng.sample(typed, min(len(typed), 2))
                 a_alive = a if mode == "all" else None
                 del nodes
                 if mode != "all":
